@@ -56,7 +56,7 @@ Section Rename.
     destruct (search_post_parent _ _ HPn) as (np & Hnp1 & Hnp2). rewrite Hnp1.
     destruct (negb (perm_on (f_heap s) op OpenWrite (v_user v))); [stay|].
     destruct (negb (Nat.eqb np op) && negb (perm_on (f_heap s) np OpenWrite (v_user v))); [stay|].
-    assert (Hoc_lt : oc < length (f_heap s)) by (eapply search_child_valid; eauto).
+    assert (Hoc_lt : oc < length (f_heap s)) by (apply (search_child_valid _ ro oc IH HPo Hoc)).
     rewrite Vos. change (sepc Linux) with SLASH.
     destruct (get (f_heap s) oc) as [[ch m|dt k id m|lk m]|] eqn:Ego.
     4:{ exfalso. apply get_some in Hoc_lt as (x & Hx). congruence. }
@@ -82,7 +82,7 @@ Section Rename.
     all: destruct (str_eqb (pi_path (sr_pi ro)) (pi_path (sr_pi rn))
                   || match sr_child rn with Some nc => Nat.eqb nc oc | None => false end); [stay|].
     all: destruct (sr_child rn) as [nc|] eqn:Enc.
-    all: try (
+    2,4: (
       (* no entry under the new name *)
       assert (Hnlk : alk (pi_part (sr_pi rn)) (children (f_heap s) np) = None);
       [ destruct HPn as (np' & Hn1 & _ & Hn3); rewrite Enc in Hn3; destruct Hn3 as [Hn3 Hn4];
